@@ -12,6 +12,7 @@ import itertools
 
 from .. import AnalysisError
 from ..finite import AttrObj, ConstEval, Undecidable
+from ..anchors import condition_parser, condition_writer, path_parser
 from ..program import FuncInfo, norm, head
 from ..report import Finding, RuleResult
 
@@ -507,7 +508,7 @@ def rule_chain(ctx):
     r = RuleResult("R-CHAIN", floor=3)
     like = prog.cls("conditions.ConditionLike")
     fdl = prog.cls("data.FilteredDataLike")
-    fs = prog.func("conditions.ConditionLike.from_spec")
+    fs = condition_parser(prog)
     from ..finite import local_tables, ClassRef
     tables = local_tables(prog, fs)
     ops = {"and": ("__and__", "ConditionAnd", "and_", "FilteredDataAnd"), "or": ("__or__", "ConditionOr", "or_", "FilteredDataOr"), "xor": ("__xor__", "ConditionXor", "xor", "FilteredDataXor")}
@@ -648,7 +649,7 @@ def rule_tt_c02(ctx):
     else:
         r.undecided.append(inst)
     # spec fold
-    fs = prog.func("conditions.ConditionLike.from_spec")
+    fs = condition_parser(prog)
     fold = None
     for n in ast.walk(fs.node):
         if isinstance(n, ast.For) and ast.unparse(n.iter) == "spec_val":
